@@ -75,13 +75,16 @@ func (h *harness) upcaster(op Op) eventbus.UpcastFunc {
 		if h.calls > h.budget {
 			panic(stop{op.From})
 		}
+		// every application changes the payload (a step counter), so that a
+		// loop never passes through the same (type, payload) state twice
+		out := json.RawMessage(fmt.Sprintf(`{"step":%d}`, h.calls))
 		switch {
 		case op.F == "fail":
 			return nil, "", errors.New("upcaster failed")
 		case len(op.F) > 4 && op.F[:4] == "ret:":
-			return data, op.F[4:], nil
+			return out, op.F[4:], nil
 		}
-		return data, op.To, nil
+		return out, op.To, nil
 	}
 }
 
